@@ -26,6 +26,7 @@ inductive Step where
   | advance (n dt : Nat)
   | evict (n : Nat)
   | create (n : Nat) (tx : Tx) (payload : Option Payload) (env : Env)
+  | conn (n peer : Nat) (mode : ConnMode)
 
 def peerOf (n : Node) (src : Nat) : Option Peer := n.peers.find? (fun p => p.key == src)
 
@@ -66,6 +67,10 @@ def World.stepR (cfg : Cfg) (w : World) : Step → World × Option HR
     match w.nodes[i]? with
     | none => (w, none)
     | some n => ({ w with nodes := w.nodes.set i (evict n) }, none)
+  | .conn i peer mode =>
+    match w.nodes[i]? with
+    | none => (w, none)
+    | some n => ({ w with nodes := w.nodes.set i (connChange n peer mode) }, none)
   | .create i tx payload env =>
     match w.nodes[i]? with
     | none => (w, none)
